@@ -9,11 +9,37 @@
 #include <AIToolbox/POMDP/Algorithms/rPOMCP.hpp>
 #include <AIToolbox/POMDP/Environments/TigerProblem.hpp>
 #include <AIToolbox/Factored/Utils/FactorGraph.hpp>
+#include <AIToolbox/Utils/Core.hpp>
+#include <AIToolbox/Utils/Combinatorics.hpp>
+#include <AIToolbox/Utils/Polytope.hpp>
+#include <unistd.h>
+#include <fcntl.h>
+#include <sys/wait.h>
+
+#define C10_API_BANDIT_TOPTWO_HANG_WITNESS
+#include "c10_api_bandit.hpp"
+#include "c10_api_futils.hpp"
+#include "c10_api_utils.hpp"
+#if __has_include("c10_api_fmdp.hpp") && !defined(C10_NO_FMDP)
+#define C10_API_FMDP_NO_TINY_TORUS
+#include "c10_api_fmdp.hpp"
+#define C10_HAVE_FMDP 1
+#endif
+#if __has_include("c10_api_mdp.hpp") && !defined(C10_NO_MDP)
+#include "c10_api_mdp.hpp"
+#define C10_HAVE_MDP 1
+#endif
+#include <AIToolbox/Bandit/Policies/TopTwoThompsonSamplingPolicy.hpp>
+#include <AIToolbox/Factored/Utils/APSP.hpp>
+#include <AIToolbox/POMDP/Utils.hpp>
+#include <AIToolbox/POMDP/Algorithms/Utils/BeliefGenerator.hpp>
+#include <AIToolbox/Utils/Probability.hpp>
 
 using namespace verif;
 namespace F = AIToolbox::Factored;
 
 static std::vector<F::Factors> g_spaces;
+static bool g_thorough = false;
 static void build_spaces(int maxFactors, int maxSize) {
     g_spaces.clear();
     for (int n = 1; n <= maxFactors; ++n) {
@@ -27,9 +53,13 @@ static void build_spaces(int maxFactors, int maxSize) {
     }
 }
 
+static void build_subset_shapes(size_t maxN);
+static long n_util(const std::string & tier);
 long verif::verif_ncases(const std::string & tier) {
     if (tier == "thorough") build_spaces(4, 3); else build_spaces(3, 2);
-    return (long)g_spaces.size() + (tier == "thorough" ? 2000 : 200) + (tier == "thorough" ? 400 : 60) + (tier == "thorough" ? 600 : 80);
+    g_thorough = tier == "thorough";
+    build_subset_shapes(tier == "thorough" ? 8 : 6);
+    return (long)g_spaces.size() + (tier == "thorough" ? 2000 : 200) + (tier == "thorough" ? 400 : 60) + (tier == "thorough" ? 600 : 80) + n_util(tier);
 }
 
 // all partial assignments over a space
@@ -141,7 +171,281 @@ static void factorgraph_sequence(Rng & rng) {
     Line r; r << "C10" << "range" << "FactorGraph.copy_usable" << "|" << (copy.variableSize() <= ns); r.emit();
 }
 
+
+// ---------------------------------------------------------------------------------------------------------------
+// Round 4: the shared index helpers one level below the anchored code (Utils/Core.hpp, Utils/Combinatorics.hpp), each on
+// exact-capacity vectors (a read/write one past the end, or a read through a reallocated buffer, is an ASan report), each
+// output printed for the Lean cursor model (AITB.Model.CursorUtil) and for the clause on the implementation's own output.
+static void stat(const char * k) { std::printf("#stat %s 1\n", k); }
+static std::vector<size_t> exact(const std::vector<size_t> & v) { std::vector<size_t> r(v); r.shrink_to_fit(); return r; }
+
+template <class Enum, class ToId>
+static void emit_subset(const char * kind, size_t k, size_t lo, size_t hi, Enum & e, ToId toId) {
+    Line l; l << "C10" << "subset" << kind << k << lo << hi << "|";
+    std::vector<std::vector<size_t>> vis; std::vector<size_t> lows;
+    size_t guard = 0;
+    while (e.isValid() && guard++ < 100000) {
+        std::vector<size_t> cur; for (const auto & x : *e) cur.push_back(toId(x));
+        if (e->size() != e.size()) cur.push_back(999999);            // operator-> and size() must agree
+        vis.push_back(cur);
+        lows.push_back((size_t)e.advance());
+    }
+    l << (size_t)vis.size(); for (auto & v : vis) l.nats(v);
+    l << "|"; l.nats(lows); l << "|" << (size_t)e.subsetsSize(); l.emit();
+    // reset() must restart the same enumeration
+    e.reset(); std::vector<size_t> first; if (e.isValid()) for (const auto & x : *e) first.push_back(toId(x));
+    Line r; r << "C10" << "range" << "SubsetEnumerator.reset_restarts" << "|" << (vis.empty() || first == vis.front()); r.emit();
+}
+static void subset_case(size_t k, size_t lo, size_t hi) {
+    { AIToolbox::SubsetEnumerator<size_t> e(k, lo, hi); emit_subset("size_t", k, lo, hi, e, [](size_t x) { return x; }); }
+    { // iterator flavour over an exact-capacity range: ids are iterators, reported as offsets (+lo so that both flavours agree)
+      std::vector<int> pool(hi - lo); pool.shrink_to_fit();
+      AIToolbox::SubsetEnumerator<std::vector<int>::iterator> e(k, pool.begin(), pool.end());
+      emit_subset("iterator", k, lo, hi, e, [&](std::vector<int>::iterator it) { return (size_t)(it - pool.begin()) + lo; }); }
+    stat(k == 1 ? "subset_k1" : k == hi - lo ? "subset_k_eq_n" : lo ? "subset_offset" : "subset_general");
+}
+
+static std::vector<size_t> sortedSet(Rng & rng, size_t n, size_t universe, size_t base = 0) {
+    std::vector<size_t> v; for (size_t i = 0; i < n; ++i) v.push_back(base + rng.below(universe));
+    std::sort(v.begin(), v.end()); v.erase(std::unique(v.begin(), v.end()), v.end()); return v;
+}
+static void union_case(Rng & rng) {
+    const unsigned shape = (unsigned)rng.below(8);
+    std::vector<size_t> l, r;
+    switch (shape) {
+        case 0: l = sortedSet(rng, 1 + rng.below(2), 12); r = sortedSet(rng, 4 + rng.below(6), 12); stat("union_narrow_then_wide"); break;
+        case 1: l = sortedSet(rng, 4 + rng.below(6), 12); r = sortedSet(rng, 1 + rng.below(2), 12); stat("union_wide_then_narrow"); break;
+        case 2: l = sortedSet(rng, rng.below(6), 8); r = sortedSet(rng, rng.below(6), 8, 100); stat("union_disjoint_high"); break;
+        case 3: l = sortedSet(rng, rng.below(6), 8, 100); r = sortedSet(rng, rng.below(6), 8); stat("union_disjoint_low"); break;
+        case 4: l = sortedSet(rng, 1 + rng.below(6), 10); r = l; stat("union_equal"); break;
+        case 5: l = sortedSet(rng, 3 + rng.below(6), 16); for (auto x : l) if (rng.coin()) r.push_back(x); stat("union_subset"); break;
+        case 6: if (rng.coin()) r = sortedSet(rng, rng.below(5), 9); else l = sortedSet(rng, rng.below(5), 9); stat("union_one_empty"); break;
+        default: l = sortedSet(rng, rng.below(9), 1u << 20); r = sortedSet(rng, rng.below(9), 1u << 20); for (auto x : l) if (rng.coin(1, 3)) r.push_back(x);
+                 std::sort(r.begin(), r.end()); r.erase(std::unique(r.begin(), r.end()), r.end()); stat("union_large_values_interleaved");
+    }
+    std::vector<size_t> out = exact(l); const std::vector<size_t> rr = exact(r);
+    AIToolbox::set_union_inplace(out, rr);
+    Line o; o << "C10" << "union"; o.nats(l); o.nats(r); o << "|"; o.nats(out); o.emit();
+}
+static void contains_case(Rng & rng) {
+    std::vector<size_t> v = exact(sortedSet(rng, 1 + rng.below(9), rng.coin() ? 14 : 1000));
+    std::vector<size_t> e;
+    const unsigned shape = (unsigned)rng.below(6);
+    if (shape == 0) { e = v; stat("contains_equal"); }
+    else if (shape == 1) { for (auto x : v) if (rng.coin()) e.push_back(x); stat("contains_subset"); }
+    else if (shape == 2) { e = sortedSet(rng, 1 + rng.below(v.size()), 14); stat("contains_random"); }
+    else if (shape == 3) { e = v; e.back() += 1 + rng.below(3); stat("contains_equal_size_last_differs"); }           // same size, differs at the end
+    else if (shape == 4) { for (auto x : v) if (rng.coin()) e.push_back(x); e.push_back(v.back() + 1 + rng.below(5)); if (e.size() > v.size()) e.erase(e.begin()); stat("contains_beyond_last"); }
+    else { stat("contains_empty"); }
+    if (e.size() > v.size()) e.resize(v.size());                     // documented precondition: elems.size() <= v.size()
+    e = exact(e);
+    const bool r = AIToolbox::sequential_sorted_contains(v, e);
+    Line o; o << "C10" << "contains"; o.nats(v); o.nats(e); o << "|" << r; o.emit();
+    // element overloads: below the first / between / equal to an element / above the last
+    for (int t = 0; t < 3; ++t) {
+        const size_t x = rng.coin() ? v[rng.below(v.size())] : rng.below(v.back() + 3);
+        const auto it = AIToolbox::sequential_sorted_find(v.begin(), v.end(), x);
+        const bool found = AIToolbox::sequential_sorted_contains(v.begin(), v.end(), x);
+        Line f; f << "C10" << "find"; f.nats(v); f << x << "|" << (size_t)(it - v.begin()) << found; f.emit();
+    }
+    { std::vector<size_t> none; const auto it = AIToolbox::sequential_sorted_find(none.begin(), none.end(), (size_t)3);
+      Line f; f << "C10" << "find"; f.nats(none); f << (size_t)3 << "|" << (size_t)(it - none.begin()) << AIToolbox::sequential_sorted_contains(none.begin(), none.end(), (size_t)3); f.emit(); }
+}
+static int ord(std::strong_ordering o) { return o < 0 ? -1 : o > 0 ? 1 : 0; }
+static int ord(std::partial_ordering o) { return o < 0 ? -1 : o > 0 ? 1 : 0; }
+static void veccmp_case(Rng & rng) {
+    // integers: equal, differing first / last / middle
+    { size_t n = rng.below(7); std::vector<size_t> a(n), b;
+      for (auto & x : a) x = rng.below(4);
+      b = a; const unsigned shape = (unsigned)rng.below(4);
+      if (n && shape == 1) b[0] = a[0] + 1; else if (n && shape == 2) b[n - 1] = a[n - 1] + 1; else if (n && shape == 3) { b[rng.below(n)] += 1; if (rng.coin()) std::swap(a, b); }
+      stat(shape == 0 ? "veccmp_equal" : shape == 1 ? "veccmp_first_differs" : shape == 2 ? "veccmp_last_differs" : "veccmp_middle_differs");
+      a = exact(a); b = exact(b);
+      Line o; o << "C10" << "veccmp"; o.nats(a); o.nats(b); o << "|" << ord(AIToolbox::veccmp(a, b)) << ord(AIToolbox::veccmp(b, a)); o.emit(); }
+    // doubles: differences straddling the absolute tolerance 1e-6 and the relative tolerance 1e-11, mixed signs, large magnitudes
+    { size_t n = 1 + rng.below(5); std::vector<double> a(n), b(n);
+      static const double deltas[] = {0.0, 0x1p-21, 0x1p-20, 0x1p-19, 0x1p-40, 0.25, -0x1p-21, -0x1p-19, -0.5};   // 2^-20 ≈ 9.5e-7 < 1e-6 < 2^-19 ≈ 1.9e-6
+      const bool big = rng.coin(1, 3);
+      for (size_t i = 0; i < n; ++i) {
+          a[i] = big ? std::ldexp((double)rng.range(-7, 7), 30 + (int)rng.below(10)) : 0.25 * (double)rng.range(-8, 8);
+          const double d = deltas[rng.below(9)];
+          b[i] = big ? a[i] * (1.0 + (rng.coin() ? 0x1p-40 : rng.coin() ? 0x1p-30 : 0.0)) + (rng.coin(1, 4) ? d : 0.0) : a[i] + d;
+      }
+      stat(big ? "veccmp_double_large" : "veccmp_double_small");
+      Line e; e << "C10" << "veccmpq" << "exact"; e.nums(a); e.nums(b); e << "|" << ord(AIToolbox::veccmp(a, b)) << ord(AIToolbox::veccmp(b, a)); e.emit();
+      Line s1; s1 << "C10" << "veccmpq" << "small"; s1.nums(a); s1.nums(b); s1 << "|" << ord(AIToolbox::veccmpSmall(a, b)) << ord(AIToolbox::veccmpSmall(b, a)); s1.emit();
+      Line g; g << "C10" << "veccmpq" << "general"; g.nums(a); g.nums(b); g << "|" << ord(AIToolbox::veccmpGeneral(a, b)) << ord(AIToolbox::veccmpGeneral(b, a)); g.emit();
+      // Eigen vectors go through the same template
+      AIToolbox::Vector ea = Eigen::Map<AIToolbox::Vector>(a.data(), (Eigen::Index)n), eb = Eigen::Map<AIToolbox::Vector>(b.data(), (Eigen::Index)n);
+      Line e2; e2 << "C10" << "veccmpq" << "exact"; e2.nums(a); e2.nums(b); e2 << "|" << ord(AIToolbox::veccmp(ea, eb)) << ord(AIToolbox::veccmp(eb, ea)); e2.emit(); }
+    // max_element_unary: duplicated maxima (the FIRST must win), all negative, single, empty
+    { size_t n = rng.below(7); std::vector<double> v(n); for (auto & x : v) x = 0.5 * (double)rng.range(-4, 3);
+      if (n > 2 && rng.coin()) v[n - 1] = *std::max_element(v.begin(), v.end());
+      stat(n == 0 ? "maxunary_empty" : "maxunary_nonempty");
+      auto [it, val] = AIToolbox::max_element_unary(v.begin(), v.end(), [](double x) { return 2.0 * x - 1.0; });
+      std::vector<double> conv; for (auto x : v) conv.push_back(2.0 * x - 1.0);
+      Line o; o << "C10" << "maxunary"; o.nums(conv); o << "|" << (size_t)(it - v.begin()) << val; o.emit(); }
+}
+static void choose_case(Rng & rng, bool exhaustive) {
+    if (exhaustive) { for (unsigned n = 0; n <= 12; ++n) for (unsigned k = 0; k <= n + 1; ++k) { Line o; o << "C10" << "choose" << n << k << "|" << AIToolbox::nChooseK(n, k); o.emit(); } stat("choose_exhaustive_n_le_12"); return; }
+    const unsigned n = (unsigned)rng.range(13, 34), k = (unsigned)rng.below(n + 1);
+    Line o; o << "C10" << "choose" << n << k << "|" << AIToolbox::nChooseK(n, k); o.emit();
+    const unsigned st = 1 + (unsigned)rng.below(9), ba = 1 + (unsigned)rng.below(5);
+    Line a; a << "C10" << "choose" << (st + ba) << ba << "|" << AIToolbox::starsBars(st, ba); a.emit();
+    Line b; b << "C10" << "choose" << (st + ba) << ba << "|" << AIToolbox::ballsBins(st, ba + 1); b.emit();
+    Line c; c << "C10" << "choose" << (st + ba - 1) << ba << "|" << AIToolbox::nonZeroStarsBars(st + ba, ba); c.emit();
+    Line d; d << "C10" << "choose" << (st + ba - 1) << ba << "|" << AIToolbox::nonZeroBallsBins(st + ba, ba + 1); d.emit();
+    stat("choose_random");
+}
+// A call that may be undefined behaviour on the tree as found runs in a forked child (stderr/stdout to /dev/null): the parent reports
+// `C10 guard <component> <clause> | <1 = child returned 0 / 0 = child died or returned non-zero>` and carries on.
+template <class Fn>
+static void guarded(const char * comp, const char * clause, Fn fn, unsigned seconds = 20) {
+    std::fflush(stdout); std::fflush(stderr);
+    const pid_t pid = fork();
+    if (pid == 0) {
+        const int dn = open("/dev/null", O_WRONLY);
+        if (dn >= 0) { dup2(dn, 2); dup2(dn, 1); }
+        alarm(seconds);
+        _exit(fn() ? 0 : 1);
+    }
+    int st = 0; bool ok = false;
+    if (pid > 0 && waitpid(pid, &st, 0) == pid) ok = WIFEXITED(st) && WEXITSTATUS(st) == 0;
+    Line l; l << "C10" << "guard" << comp << clause << "|" << ok; l.emit();
+}
+// findVerticesNaive over ONE-dimensional planes (a one-state belief space): S - 1 = 0 planes are chosen per vertex, so the enumerator is
+// built with zero elements and `isValid()` calls `back()` on an empty vector. The only belief is a corner of the simplex, which the
+// function documents it does not report: the answer must be an empty list.
+static void naive_one_dimensional_case(Rng & rng) {
+    const size_t nNew = 1 + rng.below(2), nOld = 1 + rng.below(3);
+    std::vector<double> vals; for (size_t i = 0; i < nNew + nOld; ++i) vals.push_back(0.25 * (double)rng.range(-8, 8));
+    guarded("findVerticesNaive", "one_dimensional_planes", [&] {
+        std::vector<AIToolbox::Vector> news, olds;
+        for (size_t i = 0; i < nNew; ++i) { AIToolbox::Vector v(1); v[0] = vals[i]; news.push_back(v); }
+        for (size_t i = 0; i < nOld; ++i) { AIToolbox::Vector v(1); v[0] = vals[nNew + i]; olds.push_back(v); }
+        const auto r = AIToolbox::findVerticesNaive(news.begin(), news.end(), olds.begin(), olds.end());
+        return r.first.empty() && r.second.empty();
+    });
+    stat("naive_one_dimensional");
+}
+
+// FactorGraph history: getFactor (new / existing key sets, sorted, mixed widths, non-prefix) and erase in random order; after every
+// call the neighbour lists of ALL variables and the live factors are printed (Lean: FGCursor.step, theorem fg_history_safe).
+static void fg_history_case(Rng & rng) {
+    const size_t n = (size_t)rng.range(2, 8);
+    FG g(n);
+    std::vector<bool> erased(n, false);
+    auto dump = [&](Line & l) { l << n; for (size_t v = 0; v < n; ++v) l.nats(g.getVariables(v)); };
+    auto live = [&](Line & l) { l << (size_t)g.factorSize(); for (auto it = g.begin(); it != g.end(); ++it) l.nats(g.getVariables(it)); };
+    std::vector<F::PartialKeys> seen;
+    for (int step = 0; step < 10; ++step) {
+        std::vector<size_t> alive; for (size_t v = 0; v < n; ++v) if (!erased[v]) alive.push_back(v);
+        Line l; l << "C10" << "fgstep" << n << "|"; dump(l); l << "|";
+        if (alive.size() >= 1 && (alive.size() == n ? rng.coin(3, 4) : rng.coin(2, 3))) {
+            F::PartialKeys k;
+            if (!seen.empty() && rng.coin(1, 4)) { k = rng.pick(seen); stat("fg_add_seen_key"); }
+            else { for (auto v : alive) if (rng.coin(1, 2)) k.push_back(v); if (k.empty()) k.push_back(rng.pick(alive)); stat(k.size() == 1 ? "fg_add_unary" : k.front() == alive.front() ? "fg_add_from_first" : "fg_add_non_prefix"); }
+            bool ok = true; for (auto v : k) ok = ok && !erased[v];
+            if (!ok) { k.clear(); k.push_back(rng.pick(alive)); }
+            k.shrink_to_fit();
+            const size_t before = g.factorSize();
+            g.getFactor(k); seen.push_back(k);
+            l << "add"; l.nats(k); l << (g.factorSize() != before);
+        } else {
+            const size_t a = rng.coin(1, 5) ? rng.below(n) : (alive.empty() ? rng.below(n) : rng.pick(alive));    // sometimes an already erased variable (documented no-op)
+            stat(erased[a] ? "fg_erase_again" : g.getVariables(a).empty() ? "fg_erase_isolated" : "fg_erase_connected");
+            g.erase(a); erased[a] = true;
+            l << "erase" << a;
+        }
+        l << "|"; dump(l); l << "|"; live(l); l.emit();
+    }
+    Line r; r << "C10" << "range" << "FactorGraph.variableSize_counts_active" << "|" << (g.variableSize() == (size_t)std::count(erased.begin(), erased.end(), false)); r.emit();
+}
+
+// ---------------------------------------------------------------------------------------------------------------
+// Public-API sweep (round 4): documented call sequences, with valid arguments, for the public functions that no harness referenced
+// (tools/api_coverage.py); written per library area in harness/c10_api_*.hpp, each call with a cheap certain oracle.
+static long n_api(const std::string & tier) { return tier == "thorough" ? 1000 : 150; }
+static void api_case(Rng & rng, long u) {
+    if (u == 0) {
+        // witnesses of open findings that would take the process down (or never return): forked
+        guarded("TopTwoThompsonSamplingPolicy.sampleAction", "never_returns_with_constant_rewards", [] {
+            AIToolbox::Bandit::Experience exp(2);
+            exp.record(0, 1.0); exp.record(0, 1.0); exp.record(1, 0.0); exp.record(1, 0.0);
+            AIToolbox::Bandit::TopTwoThompsonSamplingPolicy p(exp, 0.0);
+            return p.sampleAction() < 2; }, 3);
+#ifdef C10_HAVE_FMDP
+        guarded("TigerAntelope", "tiny_torus", [&] { c10api::fmdp_detail::groupTigerTinyTorus(rng); return true; });
+#endif
+        guarded("APSP", "graph_with_erased_variable", [] {
+            FG g(6); g.getFactor({4, 5}); g.erase(0);
+            return AIToolbox::Factored::APSP(g) == 1; });
+        return;
+    }
+    const long k = (u - 1) / 5;
+    switch ((u - 1) % 5) {
+        case 0: c10api::api_bandit(rng, k); break;
+        case 1: c10api::api_futils(rng, k); break;
+        case 2: c10api::api_utils(rng, k); break;
+#ifdef C10_HAVE_FMDP
+        case 3: c10api::api_fmdp(rng, k); break;
+#endif
+#ifdef C10_HAVE_MDP
+        case 4: c10api::api_mdp(rng, k); break;
+#endif
+        default: break;
+    }
+}
+
+// BeliefGenerator (both overloads): the in-place partition of the belief list with its double swap (Lean: BGCursor.selectLoop_total) runs on
+// random POMDPs; only what the documentation promises is required of the result: every entry a probability vector of the right size,
+// at most the requested number, the caller's beliefs still at the front.
+static void beliefgen_case(Rng & rng) {
+    namespace P = AIToolbox::POMDP;
+    AIToolbox::Seeder::setRootSeed((unsigned)rng.next());
+    const size_t S = 1 + rng.below(4), A = 1 + rng.below(3), O = 1 + rng.below(3);
+    PomdpTables t = randomPomdp(rng, S, A, O);
+    auto m = toDense(t);
+    P::BeliefGenerator<decltype(m)> bg(m);
+    const size_t want = rng.coin(1, 4) ? 1 + rng.below(S) : S + 1 + rng.below(14);
+    stat(want <= S ? "beliefgen_fewer_than_corners" : want <= S + 2 ? "beliefgen_few_extra" : "beliefgen_many");
+    auto bl = bg(want);
+    bool ok = bl.size() <= std::max(want, (size_t)1) + S;           // "tries to generate": never more than asked (the corners are added first)
+    for (const auto & b : bl) ok = ok && (size_t)b.size() == S && AIToolbox::isProbability(S, b);
+    Line l; l << "C10" << "range" << "BeliefGenerator(n).beliefs_are_probabilities" << "|" << ok; l.emit();
+    // the list overload, starting from the caller's own beliefs
+    std::vector<P::Belief> mine; const size_t n0 = 1 + rng.below(3);
+    for (size_t i = 0; i < n0; ++i) mine.push_back(dyadicBelief(rng, S));
+    const auto keep = mine;
+    const size_t want2 = n0 + rng.below(10);
+    bg(want2, &mine);
+    bool ok2 = true;
+    for (const auto & b : mine) ok2 = ok2 && (size_t)b.size() == S && AIToolbox::isProbability(S, b);
+    for (size_t i = 0; i < std::min(keep.size(), mine.size()) && i < want2; ++i) ok2 = ok2 && keep[i] == mine[i];
+    Line r; r << "C10" << "range" << "BeliefGenerator(n,list).extends_callers_list_with_probabilities" << "|" << ok2; r.emit();
+}
+
+// all (n, k, lo) with 1 <= k <= n <= maxN, lo in {0, 3}: index -> shape
+static std::vector<std::array<size_t, 3>> g_subsetShapes;
+static void build_subset_shapes(size_t maxN) {
+    g_subsetShapes.clear();
+    for (size_t n = 1; n <= maxN; ++n) for (size_t k = 1; k <= n; ++k) for (size_t lo : {size_t(0), size_t(3)}) g_subsetShapes.push_back({n, k, lo});
+}
+static long n_util(const std::string & tier) { return (long)g_subsetShapes.size() + 1 + (tier == "thorough" ? 1500 : 150) + n_api(tier); }
+static void util_case(Rng & rng, long u) {
+    if (u < (long)g_subsetShapes.size()) { auto [n, k, lo] = g_subsetShapes[u]; subset_case(k, lo, lo + n); return; }
+    u -= (long)g_subsetShapes.size();
+    { const long nPlain = 1 + (g_thorough ? 1500 : 150); if (u >= nPlain) { api_case(rng, u - nPlain); return; } }
+    if (u == 0) { choose_case(rng, true); naive_one_dimensional_case(rng); return; }
+    union_case(rng); contains_case(rng); veccmp_case(rng); fg_history_case(rng);
+    if (u % 3 == 0) choose_case(rng, false);
+    if (u % 3 == 1) beliefgen_case(rng);
+    if (u % 25 == 1) naive_one_dimensional_case(rng);
+    if (u % 10 == 0) { size_t n = 8 + rng.below(3), k = 1 + rng.below(n), lo = rng.below(5); subset_case(k, lo, lo + n); }
+}
+
 void verif::verif_case(Rng & rng, long idx, const std::string & tier) {
+    { static long nOld = -1; if (nOld < 0) nOld = verif::verif_ncases(tier) - n_util(tier); if (idx >= nOld) { util_case(rng, idx - nOld); return; } }
     const long nShape = (long)g_spaces.size() + (tier == "thorough" ? 2000 : 200);
     const long nPlan = nShape + (tier == "thorough" ? 400 : 60);
     if (idx >= nPlan) { factorgraph_sequence(rng); factorgraph_union_case(rng); return; }
